@@ -150,18 +150,22 @@ Qed.
 (* ---------- documents ---------- *)
 (* [IOpen n mp w]: an open marker named n, written as '[' followed by w, from which the parser reads the
    properties mp (in order of writing, the shorthand value first) *)
-Inductive item := IText (t : str) | IBr (c : N) | IOpen (n : str) (mp : list (str * mvalue)) (w : str) | IClose (n : str) | ICloseAll.
+Inductive item := IText (t : str) | IBr (c : N) | IOpen (n : str) (mp : list (str * mvalue)) (w : str) | IClose (n : str) | ICloseAll
+  | ISelf (n : str) (mp : list (str * mvalue)) (w : str).      (* a self-closing marker [name props/] *)
 
 (* w is a way of writing the inside of the open marker n with properties mp (Part 2 gives the syntax) *)
-Definition open_written (w : str) (n : str) (mp : list (str * mvalue)) : Prop :=
+Definition marker_written (ty : tagtype) (w : str) (n : str) (mp : list (str * mvalue)) : Prop :=
   forall tl p pos, exists src p', parse_marker {| rest := w ++ tl; sp := p |} pos
-    = Some ({| mname := n; mpos := pos; msrc := src; mprops := mp; mtype := TOpen |}, {| rest := tl; sp := p' |}).
+    = Some ({| mname := n; mpos := pos; msrc := src; mprops := mp; mtype := ty |}, {| rest := tl; sp := p' |}).
+Definition open_written := marker_written TOpen.
+Definition self_written := marker_written TSelfClosing.
 
 Definition render1 (i : item) : str :=
   match i with
   | IText t => t
   | IBr c => [92%N; c]
   | IOpen n mp w => 91%N :: w
+  | ISelf n mp w => 91%N :: w
   | IClose n => 91%N :: 47%N :: n ++ [93%N]
   | ICloseAll => [91%N; 47%N; 93%N]
   end.
@@ -176,6 +180,7 @@ Definition item_ok (i : item) : Prop :=
   | IOpen n mp w => name_ok n /\ get_prop mp (STR "trimwhitespace") = None /\ open_written w n mp
   | IClose n => name_ok n
   | ICloseAll => True
+  | ISelf n mp w => name_ok n /\ get_prop mp (STR "trimwhitespace") = None /\ self_written w n mp
   end.
 
 (* the markers of a document with the text position each one sits at *)
@@ -188,6 +193,7 @@ Fixpoint amarks (its : list item) (p : Z) : list amark :=
   | IOpen n mp _ :: r => (n, p, TOpen, mp) :: amarks r p
   | IClose n :: r => (n, p, TClose, []) :: amarks r p
   | ICloseAll :: r => ([], p, TCloseAll, []) :: amarks r p
+  | ISelf n mp _ :: r => (n, p, TSelfClosing, mp) :: amarks r p
   end.
 Definition mrel (m : marker) (a : amark) : Prop :=
   mname m = fst (fst (fst a)) /\ mpos m = snd (fst (fst a)) /\ mtype m = snd (fst a) /\ mprops m = snd a.
@@ -229,23 +235,46 @@ Proof.
   rewrite (trim_none _ m Hp Ht). cbn [andb rev app length]. rewrite Z.add_0_r. reflexivity.
 Qed.
 
+(* a self-closing marker trims one following blank when it stands at the start or after a blank; when no
+   blank follows it, nothing is trimmed either way *)
+Lemma main_loop_marker_self f tl0 p bld blen ms last m tl p' :
+  parse_marker {| rest := tl0; sp := p |} blen = Some (m, {| rest := tl; sp := p' |}) ->
+  processor_of (mname m) = None -> get_prop (mprops m) (STR "trimwhitespace") = None -> mtype m = TSelfClosing ->
+  is_space (hd 0%N tl) = false ->
+  main_loop (S f) {| rest := 91%N :: tl0; sp := p |} bld blen ms last
+  = main_loop f {| rest := tl; sp := p' |} bld blen (ms ++ [m]) 91%N.
+Proof.
+  intros Hm Hproc Hp Ht Hs. cbn [main_loop rest sp]. change (91 =? 92)%N with false. cbn [andb].
+  change (91 =? 91)%N with true. cbv iota. rewrite Hm, Hproc. cbv beta iota zeta. rewrite Hp, Ht.
+  assert (Epk : is_space (peek {| rest := tl; sp := p' |}) = false) by (unfold peek; cbn [rest]; destruct tl; [reflexivity|exact Hs]).
+  destruct ((blen =? 0) || is_space last); cbn [negb]; rewrite Epk; rewrite ?andb_false_r; cbn [rev app length]; rewrite Z.add_0_r; reflexivity.
+Qed.
+
+(* no blank directly after a self-closing marker *)
+Fixpoint selfs_ok (its : list item) (R : str) : Prop :=
+  match its with
+  | [] => True
+  | ISelf _ _ _ :: r => is_space (hd 0%N (render r ++ R)) = false /\ selfs_ok r R
+  | _ :: r => selfs_ok r R
+  end.
+
 Lemma main_loop_items : forall its R f p bld blen ms last,
-  Forall item_ok its -> (length (render its ++ R) < f)%nat ->
+  Forall item_ok its -> selfs_ok its R -> (length (render its ++ R) < f)%nat ->
   exists p' last' ms', Forall2 mrel ms' (amarks its blen) /\
     main_loop f {| rest := render its ++ R; sp := p |} bld blen ms last
     = main_loop (S (length R)) {| rest := R; sp := p' |} (rev (text its) ++ bld)
                 (blen + Z.of_nat (length (text its))) (ms ++ ms') last'.
 Proof.
-  induction its as [|i its IH]; intros R f p bld blen ms last Hok Hf.
+  induction its as [|i its IH]; intros R f p bld blen ms last Hok Hso Hf.
   - exists p, last, []. split; [constructor|]. cbn [render text flat_map app rev length Z.of_nat] in *.
     rewrite Z.add_0_r, app_nil_r. apply main_loop_fuel; cbn [rest]; lia.
   - inversion Hok as [|? ? Hi Hr]; subst.
     cbn [render flat_map] in *. change (flat_map render1 its) with (render its) in *. rewrite <- app_assoc in *.
     cbn [text flat_map]. change (flat_map text1 its) with (text its).
-    destruct i as [t|c|n mp w|n|]; cbn [render1 text1 item_ok amarks] in *.
+    destruct i as [t|c|n mp w|n| |n mp w]; cbn [render1 text1 item_ok amarks selfs_ok] in *.
     + (* text *)
       destruct (main_loop_plain_app t (render its ++ R) f p bld blen ms last Hi Hf) as (p1 & l1 & E1).
-      destruct (IH R (f - length t)%nat p1 (rev t ++ bld) (blen + Z.of_nat (length t)) ms l1 Hr) as (p2 & l2 & ms' & F & E2).
+      destruct (IH R (f - length t)%nat p1 (rev t ++ bld) (blen + Z.of_nat (length t)) ms l1 Hr Hso) as (p2 & l2 & ms' & F & E2).
       { rewrite app_length in Hf. lia. }
       exists p2, l2, ms'. split; [exact F|]. rewrite E1, E2. rewrite rev_app_distr, app_length, <- app_assoc.
       replace (blen + Z.of_nat (length t) + Z.of_nat (length (text its))) with (blen + Z.of_nat (length t + length (text its))) by lia.
@@ -254,7 +283,7 @@ Proof.
       destruct f; [cbn in Hf; lia|]. cbn [app main_loop rest sp].
       change (92 =? 92)%N with true. assert (Eb : ((c =? 91) || (c =? 93))%N = true) by (destruct Hi; subst; reflexivity).
       rewrite Eb. cbn [andb].
-      destruct (IH R f (p + 1) (c :: bld) (blen + 1) ms last Hr) as (p2 & l2 & ms' & F & E2).
+      destruct (IH R f (p + 1) (c :: bld) (blen + 1) ms last Hr Hso) as (p2 & l2 & ms' & F & E2).
       { cbn [app length] in Hf. lia. }
       exists p2, l2, ms'. split; [exact F|]. rewrite E2. cbn [rev app length]. rewrite <- app_assoc. cbn [app].
       replace (blen + 1 + Z.of_nat (length (text its))) with (blen + Z.of_nat (S (length (text its)))) by lia. reflexivity.
@@ -263,7 +292,7 @@ Proof.
       destruct f; [cbn in Hf; lia|]. cbn [app].
       destruct (Hw (render its ++ R) p blen) as (src & p1 & Em).
       rewrite (main_loop_marker f _ p bld blen ms last _ _ p1 Em); cbn [mname mprops mtype]; try (apply Hn || exact Htw || discriminate).
-      destruct (IH R f p1 bld blen (ms ++ [{| mname := n; mpos := blen; msrc := src; mprops := mp; mtype := TOpen |}]) 91%N Hr) as (p2 & l2 & ms' & F & E2).
+      destruct (IH R f p1 bld blen (ms ++ [{| mname := n; mpos := blen; msrc := src; mprops := mp; mtype := TOpen |}]) 91%N Hr Hso) as (p2 & l2 & ms' & F & E2).
       { cbn [app length] in Hf. rewrite app_length in Hf. lia. }
       exists p2, l2, ({| mname := n; mpos := blen; msrc := src; mprops := mp; mtype := TOpen |} :: ms').
       split; [constructor; [repeat split; reflexivity|exact F]|].
@@ -272,7 +301,7 @@ Proof.
       destruct f; [cbn in Hf; lia|]. cbn [app]. rewrite <- app_assoc. cbn [app].
       destruct (parse_marker_close n (render its ++ R) p blen Hi) as (src & p1 & Em).
       rewrite (main_loop_marker f _ p bld blen ms last _ _ p1 Em); cbn [mname mprops mtype]; try (apply Hi || reflexivity || discriminate).
-      destruct (IH R f p1 bld blen (ms ++ [{| mname := n; mpos := blen; msrc := src; mprops := []; mtype := TClose |}]) 91%N Hr) as (p2 & l2 & ms' & F & E2).
+      destruct (IH R f p1 bld blen (ms ++ [{| mname := n; mpos := blen; msrc := src; mprops := []; mtype := TClose |}]) 91%N Hr Hso) as (p2 & l2 & ms' & F & E2).
       { cbn [app length] in Hf. rewrite !app_length in Hf. cbn [length] in Hf. rewrite app_length. lia. }
       exists p2, l2, ({| mname := n; mpos := blen; msrc := src; mprops := []; mtype := TClose |} :: ms').
       split; [constructor; [repeat split; reflexivity|exact F]|].
@@ -281,9 +310,19 @@ Proof.
       destruct f; [cbn in Hf; lia|]. cbn [app].
       destruct (parse_marker_close_all (render its ++ R) p blen) as (src & p1 & Em).
       rewrite (main_loop_marker f _ p bld blen ms last _ _ p1 Em); cbn [mname mprops mtype]; try (reflexivity || discriminate).
-      destruct (IH R f p1 bld blen (ms ++ [{| mname := []; mpos := blen; msrc := src; mprops := []; mtype := TCloseAll |}]) 91%N Hr) as (p2 & l2 & ms' & F & E2).
+      destruct (IH R f p1 bld blen (ms ++ [{| mname := []; mpos := blen; msrc := src; mprops := []; mtype := TCloseAll |}]) 91%N Hr Hso) as (p2 & l2 & ms' & F & E2).
       { cbn [app length] in Hf. rewrite app_length. rewrite app_length in Hf. lia. }
       exists p2, l2, ({| mname := []; mpos := blen; msrc := src; mprops := []; mtype := TCloseAll |} :: ms').
+      split; [constructor; [repeat split; reflexivity|exact F]|].
+      rewrite E2, <- app_assoc. cbn [app]. reflexivity.
+    + (* [name props/] *)
+      destruct Hi as (Hn & Htw & Hw). destruct Hso as (Hsp & Hso).
+      destruct f; [cbn in Hf; lia|]. cbn [app].
+      destruct (Hw (render its ++ R) p blen) as (src & p1 & Em).
+      rewrite (main_loop_marker_self f _ p bld blen ms last _ _ p1 Em); cbn [mname mprops mtype]; try (apply Hn || exact Htw || reflexivity || exact Hsp).
+      destruct (IH R f p1 bld blen (ms ++ [{| mname := n; mpos := blen; msrc := src; mprops := mp; mtype := TSelfClosing |}]) 91%N Hr Hso) as (p2 & l2 & ms' & F & E2).
+      { cbn [app length] in Hf. rewrite app_length in Hf. lia. }
+      exists p2, l2, ({| mname := n; mpos := blen; msrc := src; mprops := mp; mtype := TSelfClosing |} :: ms').
       split; [constructor; [repeat split; reflexivity|exact F]|].
       rewrite E2, <- app_assoc. cbn [app]. reflexivity.
 Qed.
@@ -315,6 +354,7 @@ Fixpoint enclosed (its : list item) (open : list entry) (done_ : list entry) : o
                   end
       end
   | ICloseAll :: r => enclosed r [] (done_ ++ open)
+  | ISelf n mp _ :: r => enclosed r open (done_ ++ [(n, mp, [])])
   | i :: r => enclosed r (map (fun e : entry => (fst e, snd e ++ text1 i)) open) done_
   end.
 
@@ -403,7 +443,7 @@ Proof.
     exists acc. split; [reflexivity|exact Hacc].
   - inversion Hok as [|? ? Hi Hr]; subst.
     cbn [text flat_map]. change (flat_map text1 its) with (text its).
-    destruct i as [t|c|n mp w|n|]; cbn [amarks enclosed text1] in *.
+    destruct i as [t|c|n mp w|n| |n mp w]; cbn [amarks enclosed text1] in *.
     + (* text *)
       rewrite app_assoc. apply IH; try assumption.
       * rewrite app_length, Nat2Z.inj_add. exact Hms.
@@ -435,6 +475,13 @@ Proof.
       cbn [build_attrs]. rewrite M3. cbn [app]. apply IH; try assumption; [constructor|].
       apply Forall2_app; [exact Hacc|].
       clear - Hun M2. induction Hun; cbn [map]; constructor; [apply close_gives_arel; assumption|assumption].
+    + (* [name props/] *)
+      inversion Hms as [|m ? ms' ? Hm Hms']; subst. destruct Hm as (M1 & M2 & M3 & M4). cbn [fst snd] in *.
+      cbn [build_attrs]. rewrite M3. cbn [app]. apply IH; try assumption.
+      apply Forall2_app; [exact Hacc|]. constructor; [|constructor].
+      unfold arel, attr_of, ename, eprops. cbn [aname aprops apos alen fst snd length].
+      split; [exact M1|]. split; [rewrite M4; reflexivity|]. exists (length pre).
+      split; [exact M2|]. split; [reflexivity|]. split; [lia|reflexivity].
 Qed.
 
 (* ---------- putting the phases together ---------- *)
@@ -486,7 +533,7 @@ Proof. induction 1; cbn [length]; congruence. Qed.
 Local Open Scope Z_scope.
 
 Theorem markup_document_roundtrip its :
-  Forall item_ok its ->
+  Forall item_ok its -> selfs_ok its [] ->
   forallb (fun c => negb (N.eqb c 58)) (text its) = true ->
   no_edge_space (text its) ->
   match enclosed its [] [] with
@@ -500,8 +547,8 @@ Theorem markup_document_roundtrip its :
   | None => parse_markup (render its) = None
   end.
 Proof.
-  intros Hok Hcolon (Ht1 & Ht2). set (T := text its) in *.
-  destruct (main_loop_items its [] (S (length (render its))) 0 [] 0 [] 0%N Hok) as (p' & last' & ms' & Hms & Eml).
+  intros Hok Hso Hcolon (Ht1 & Ht2). set (T := text its) in *.
+  destruct (main_loop_items its [] (S (length (render its))) 0 [] 0 [] 0%N Hok Hso) as (p' & last' & ms' & Hms & Eml).
   { rewrite app_nil_r. lia. }
   rewrite app_nil_r in Eml.
   assert (Eml' : main_loop (S (length (render its))) {| rest := render its; sp := 0 |} [] 0 [] 0%N = Some (text its, ms')).
@@ -739,14 +786,21 @@ Proof.
   destruct (word_head k Hk) as (c & k' & -> & Hc & _). cbn [ptext app]. eauto.
 Qed.
 
-Lemma parse_props_written : forall ps f r p nm acc pos src tl,
-  Forall prop_ok ps -> consume_ws r = {| rest := ptext ps ++ 93%N :: tl; sp := p |} -> (length ps < f)%nat ->
+(* how a marker ends: "]" (open) or "/]" (self-closing) *)
+Definition ending (self : bool) : str := if self then [47%N; 93%N] else [93%N].
+Definition ending_type (self : bool) : tagtype := if self then TSelfClosing else TOpen.
+
+Lemma parse_props_written : forall self ps f r p nm acc pos src tl,
+  Forall prop_ok ps -> consume_ws r = {| rest := ptext ps ++ ending self ++ tl; sp := p |} -> (length ps < f)%nat ->
   exists p', parse_props f r nm acc pos src
-    = Some ({| mname := nm; mpos := pos; msrc := src; mprops := acc ++ pvalues ps; mtype := TOpen |}, {| rest := tl; sp := p' |}).
+    = Some ({| mname := nm; mpos := pos; msrc := src; mprops := acc ++ pvalues ps; mtype := ending_type self |}, {| rest := tl; sp := p' |}).
 Proof.
-  induction ps as [|[k v] ps IH]; intros f r p nm acc pos src tl Hok Hr Hf.
-  - destruct f; [cbn in Hf; lia|]. cbn [parse_props]. rewrite Hr. cbn [ptext app]. unfold peek. cbn [rest].
-    change (93 =? 93)%N with true. cbv iota. rewrite parse_rune_here by reflexivity. cbn [pvalues map]. rewrite app_nil_r. eexists. reflexivity.
+  intros self. induction ps as [|[k v] ps IH]; intros f r p nm acc pos src tl Hok Hr Hf.
+  - destruct f; [cbn in Hf; lia|]. cbn [parse_props]. rewrite Hr. cbn [ptext app]. unfold peek.
+    destruct self; cbn [ending ending_type app rest].
+    + change (47 =? 93)%N with false. change (47 =? 47)%N with true. cbv iota.
+      rewrite parse_rune_here by reflexivity. rewrite parse_rune_here by reflexivity. cbn [pvalues map]. rewrite app_nil_r. eexists. reflexivity.
+    + change (93 =? 93)%N with true. cbv iota. rewrite parse_rune_here by reflexivity. cbn [pvalues map]. rewrite app_nil_r. eexists. reflexivity.
   - destruct f; [cbn in Hf; lia|]. cbn [length] in Hf. inversion Hok as [|? ? [Hk Hv] Hok']; subst. cbn [fst snd] in *.
     destruct (word_head k Hk) as (c & k' & -> & Hc & Hk' & Hcu).
     cbn [parse_props]. rewrite Hr. cbn [ptext app]. unfold peek. cbn [rest].
@@ -757,15 +811,18 @@ Proof.
     (* the value, followed by a blank and the next key, or by ']' *)
     destruct ps as [|kv2 ps'].
     + rewrite <- app_assoc. cbn [app].
-      destruct (parse_value_written v [] 93%N tl (p + 1 + Z.of_nat (length k') + 1) Hv) as (r' & p' & Ev & Ec).
-      { split; [reflexivity|]. split; [discriminate|]. right. split; [reflexivity|]. split; vm_compute; reflexivity. }
+      assert (Hend : exists y t, ending self ++ tl = y :: t /\ follows [] y).
+      { destruct self; cbn [ending app]; eexists _, _; (split; [reflexivity|]);
+          (split; [reflexivity|]); (split; [discriminate|]); right; (split; [reflexivity|]); split; vm_compute; reflexivity. }
+      destruct Hend as (y & t & Ey & Hfy). rewrite Ey.
+      destruct (parse_value_written v [] y t (p + 1 + Z.of_nat (length k') + 1) Hv Hfy) as (r' & p' & Ev & Ec).
       cbn [app] in Ev. rewrite Ev.
-      destruct (IH f r' p' nm (acc ++ [(c :: k', pv_value v)]) pos src tl Hok') as (p2 & E2); [exact Ec|lia|].
+      destruct (IH f r' p' nm (acc ++ [(c :: k', pv_value v)]) pos src tl Hok') as (p2 & E2); [rewrite Ec, <- Ey; reflexivity|lia|].
       exists p2. rewrite E2. cbn [pvalues map fst snd]. rewrite <- app_assoc. reflexivity.
     + destruct (ptext_head (kv2 :: ps') ltac:(discriminate) Hok') as (y & t & Ey & Hy).
       rewrite <- app_assoc. rewrite Ey.
-      replace ((32%N :: y :: t) ++ 93%N :: tl) with ([32%N] ++ y :: (t ++ 93%N :: tl)) by reflexivity.
-      destruct (parse_value_written v [32%N] y (t ++ 93%N :: tl) (p + 1 + Z.of_nat (length k') + 1) Hv) as (r' & p' & Ev & Ec).
+      replace ((32%N :: y :: t) ++ ending self ++ tl) with ([32%N] ++ y :: (t ++ ending self ++ tl)) by reflexivity.
+      destruct (parse_value_written v [32%N] y (t ++ ending self ++ tl) (p + 1 + Z.of_nat (length k') + 1) Hv) as (r' & p' & Ev & Ec).
       { split; [apply id_not_space; exact Hy|]. split; [intros ->; vm_compute in Hy; discriminate|]. left. reflexivity. }
       rewrite Ev.
       destruct (IH f r' p' nm (acc ++ [(c :: k', pv_value v)]) pos src tl Hok') as (p2 & E2); [|lia|].
@@ -787,38 +844,56 @@ Proof.
   destruct r; cbn [length] in *; lia.
 Qed.
 
-Theorem plain_form_written n ps : name_ok n -> Forall prop_ok ps -> open_written (w_plain n ps) n (pvalues ps).
+(* name k=v ... ]   or   name k=v ... /] *)
+Definition w_plain_gen (self : bool) (n : str) (ps : list (str * pval)) : str :=
+  n ++ match ps with [] => [] | _ => 32%N :: ptext ps end ++ ending self.
+
+Lemma ending_head self tl : exists y t, ending self ++ tl = y :: t /\ is_space y = false /\ is_id_char y = false /\ (y =? 61)%N = false.
+Proof. destruct self; cbn [ending app]; eexists _, _; (split; [reflexivity|]); repeat split; vm_compute; reflexivity. Qed.
+
+Theorem plain_form_written_gen self n ps : name_ok n -> Forall prop_ok ps ->
+  marker_written (ending_type self) (w_plain_gen self n ps) n (pvalues ps).
 Proof.
   intros Hn Hps tl p pos. pose proof Hn as (Hne & Hid & _).
   destruct n as [|c n'] eqn:En; [contradiction|]. rewrite <- En in *.
   assert (Hc : is_id_char c = true) by (rewrite En in Hid; cbn [forallb] in Hid; apply andb_true_iff in Hid; tauto).
   assert (Hn' : forallb is_id_char n' = true) by (rewrite En in Hid; cbn [forallb] in Hid; apply andb_true_iff in Hid; tauto).
-  unfold parse_marker, w_plain. cbn [rest sp]. rewrite <- !app_assoc.
+  unfold parse_marker, w_plain_gen. cbn [rest sp]. rewrite <- !app_assoc.
   assert (E1 : forall X, expect_peek {| rest := n ++ X; sp := p + 1 |} 47%N = (false, {| rest := n ++ X; sp := p + 1 |})).
   { intros X. rewrite En. cbn [app]. apply expect_peek_other; [apply id_not_space; exact Hc|apply id_not; [exact not_id_47|exact Hc]]. }
   rewrite E1.
+  unfold parse_id. rewrite En. cbn [app]. rewrite consume_ws_nonspace by (apply id_not_space; exact Hc).
+  cbn [rest sp]. rewrite Hc.
   destruct ps as [|kv ps'].
-  - cbn [app]. destruct (parse_id_name n tl (p + 1) Hn) as (p1 & E2). rewrite E2.
-    rewrite (expect_peek_other 93 61 tl p1) by reflexivity.
-    destruct (parse_props_written [] (S (length (93%N :: tl))) {| rest := 93%N :: tl; sp := p1 |} p1 n [] pos p tl (Forall_nil _)) as (p2 & E3).
-    { apply consume_ws_nonspace. reflexivity. }
+  - cbn [app]. destruct (ending_head self tl) as (y & t & Ey & Hys & Hyi & Hy61). rewrite Ey.
+    rewrite take_while_app by exact Hn' || exact Hyi. cbn [rev app].
+    rewrite (expect_peek_other y 61 t _ Hys Hy61).
+    match goal with |- context [parse_props ?f ?r _ _ _ _] =>
+      destruct (parse_props_written self [] f r (sp r) (c :: n') [] pos p tl (Forall_nil _)) as (p2 & E3) end.
+    { cbn [sp]. rewrite consume_ws_nonspace by exact Hys. cbn [ptext app]. rewrite Ey. reflexivity. }
     { cbn; lia. }
-    cbn [rest]. rewrite E3. exists p, p2. reflexivity.
+    rewrite E3. exists p, p2. reflexivity.
   - destruct (ptext_head (kv :: ps') ltac:(discriminate) Hps) as (y & t & Ey & Hy).
-    cbn [app]. unfold parse_id. rewrite En. cbn [app]. rewrite consume_ws_nonspace by (apply id_not_space; exact Hc).
-    cbn [rest sp]. rewrite Hc. rewrite take_while_app by exact Hn' || (vm_compute; reflexivity). cbn [rev app].
-    (* expectPeek '=' skips the blank and sees the first key *)
+    cbn [app]. rewrite take_while_app by exact Hn' || (vm_compute; reflexivity). cbn [rev app].
     assert (Ews : forall q X, consume_ws {| rest := 32%N :: y :: X; sp := q |} = {| rest := y :: X; sp := q + 1 |}).
     { intros q X. unfold consume_ws. cbn [rest sp consume_ws_list]. change (is_space 32) with true. cbv iota.
       cbn [consume_ws_list]. rewrite (id_not_space y Hy). reflexivity. }
     unfold expect_peek. rewrite Ey. cbn [app]. rewrite !Ews. unfold peek. cbn [rest].
     rewrite (id_not y 61 not_id_61 Hy). cbv iota. cbn [rest].
     match goal with |- context [parse_props ?f ?r _ _ _ _] =>
-      destruct (parse_props_written (kv :: ps') f r (sp r) (c :: n') [] pos p tl Hps) as (p2 & E3) end.
+      destruct (parse_props_written self (kv :: ps') f r (sp r) (c :: n') [] pos p tl Hps) as (p2 & E3) end.
     { cbn [sp]. rewrite consume_ws_nonspace by (apply id_not_space; exact Hy). rewrite Ey. reflexivity. }
-    { change (y :: t ++ 93%N :: tl) with ((y :: t) ++ 93%N :: tl). rewrite <- Ey. apply props_fuel. }
+    { change (y :: t ++ ending self ++ tl) with ((y :: t) ++ ending self ++ tl). rewrite <- Ey. apply props_fuel. }
     rewrite E3. exists p, p2. reflexivity.
 Qed.
+
+Theorem plain_form_written n ps : name_ok n -> Forall prop_ok ps -> open_written (w_plain n ps) n (pvalues ps).
+Proof. exact (plain_form_written_gen false n ps). Qed.
+
+(* the self-closing form: name k=v ... /] *)
+Definition w_self (n : str) (ps : list (str * pval)) : str := w_plain_gen true n ps.
+Theorem self_form_written n ps : name_ok n -> Forall prop_ok ps -> self_written (w_self n ps) n (pvalues ps).
+Proof. exact (plain_form_written_gen true n ps). Qed.
 
 Theorem short_form_written n v ps : name_ok n -> pv_ok v -> Forall prop_ok ps ->
   open_written (w_short n v ps) n ((n, pv_value v) :: pvalues ps).
@@ -840,7 +915,7 @@ Proof.
       destruct (parse_value_written v [] 93%N tl q Hv) as (r' & p' & Ev & Ec) end.
     { split; [reflexivity|]. split; [discriminate|]. right. split; [reflexivity|]. split; vm_compute; reflexivity. }
     cbn [app] in Ev. rewrite <- ?app_assoc. cbn [app]. rewrite Ev.
-    destruct (parse_props_written [] (S (length (rest r'))) r' p' (c :: n') [(c :: n', pv_value v)] pos p tl (Forall_nil _)) as (p2 & E3); [exact Ec|cbn; lia|].
+    destruct (parse_props_written false [] (S (length (rest r'))) r' p' (c :: n') [(c :: n', pv_value v)] pos p tl (Forall_nil _)) as (p2 & E3); [exact Ec|cbn; lia|].
     rewrite E3. exists p, p2. reflexivity.
   - destruct (ptext_head (kv :: ps') ltac:(discriminate) Hps) as (y & t & Ey & Hy).
     rewrite Ey. cbn [app].
@@ -849,7 +924,7 @@ Proof.
       destruct (parse_value_written v [32%N] y (t ++ 93%N :: tl) q Hv) as (r' & p' & Ev & Ec) end.
     { split; [apply id_not_space; exact Hy|]. split; [intros ->; vm_compute in Hy; discriminate|]. left. reflexivity. }
     cbn [app]; repeat (rewrite <- app_assoc; cbn [app]). cbn [app] in Ev; repeat (rewrite <- app_assoc in Ev; cbn [app] in Ev). rewrite Ev.
-    destruct (parse_props_written (kv :: ps') (S (length (rest r'))) r' p' (c :: n') [(c :: n', pv_value v)] pos p tl Hps) as (p2 & E3).
+    destruct (parse_props_written false (kv :: ps') (S (length (rest r'))) r' p' (c :: n') [(c :: n', pv_value v)] pos p tl Hps) as (p2 & E3).
     { rewrite Ec, Ey. reflexivity. }
     { (* the fuel: what is left after the value still holds every remaining property *)
       assert (Hlen : (length (rest (consume_ws r')) <= length (rest r'))%nat).
@@ -872,3 +947,8 @@ Proof. intros Hn Hps Ht. cbn [open_plain item_ok]. split; [exact Hn|]. split; [e
 Lemma open_short_ok n v ps : name_ok n -> pv_ok v -> Forall prop_ok ps ->
   get_prop ((n, pv_value v) :: pvalues ps) (STR "trimwhitespace") = None -> item_ok (open_short n v ps).
 Proof. intros Hn Hv Hps Ht. cbn [open_short item_ok]. split; [exact Hn|]. split; [exact Ht|]. apply short_form_written; assumption. Qed.
+
+Definition self_marker (n : str) (ps : list (str * pval)) : item := ISelf n (pvalues ps) (w_self n ps).
+Lemma self_marker_ok n ps : name_ok n -> Forall prop_ok ps ->
+  get_prop (pvalues ps) (STR "trimwhitespace") = None -> item_ok (self_marker n ps).
+Proof. intros Hn Hps Ht. cbn [self_marker item_ok]. split; [exact Hn|]. split; [exact Ht|]. apply self_form_written; assumption. Qed.
